@@ -1151,7 +1151,7 @@ theorem apply_scanCd (n : Node) (op : Op) :
     unfold Node.tick
     simp only []
     by_cases hon : n.powerPhase.power = .on
-    · simp only [hon, if_true, true_and, Node.itemPhase, mapFolders_scanCd, mapSws_scanCd]
+    · simp only [hon, if_true, true_and, Node.itemPhase, mapFolders_scanCd, mapSws_scanCd, redPhase_scanCd]
       have hps := powerPhase_scanCd n
       unfold Node.scanPhase
       (repeat' split) <;> (try simp only [mapFolders_scanCd, mapSws_scanCd]) <;> omega
